@@ -1,7 +1,7 @@
 //! Multi-threaded scenarios under the baton scheduler: `mt-sq` (C04),
 //! `mt-life` (C03), `mt-wake` (C11), `mt-pool` (C08).
 
-use std::sync::atomic::{AtomicBool, AtomicU32, AtomicU64, Ordering};
+use std::sync::atomic::{AtomicBool, AtomicU32, Ordering};
 use std::sync::{Arc, Mutex};
 use std::task::{Context, Poll};
 use std::time::Duration;
@@ -21,12 +21,67 @@ unsafe impl<T> Send for SendPtr<T> {}
 struct MtTask {
     id: u32,
     name: &'static str,
-    task: Box<dyn DynTask>,
+    /// A stream (multishot): yields `quota` items at most, then is dropped.
+    is_iter: bool,
+    quota: usize,
+    matched: usize,
+    last_pending: bool,
+    task: Option<Box<dyn DynTask>>,
     expect: ops::Expect,
     wakers: TaskWakers,
     polled: bool,
     finished: bool,
     out: Option<Out>,
+}
+
+fn mt_recs(id: u32) -> Vec<kernel::OpRecord> {
+    kernel::with(|k| {
+        k.records
+            .iter()
+            .filter(|r| r.by_op == id && r.during == During::Poll)
+            .cloned()
+            .collect()
+    })
+}
+
+/// C03, checked by a task thread between its polls: once every posted
+/// completion has been processed by `Ring::poll` (the completion queue is
+/// drained), a task of this thread whose last poll returned `Pending`, that
+/// has a live request and a result waiting for it, must have had the waker of
+/// that poll invoked.
+fn check_lost_wakeups(list: &[MtTask]) {
+    let drained = kernel::with(|k| {
+        let r = &k.rings[0];
+        r.cq_ready() == 0 && r.overflow.is_empty() && r.deferred.is_empty() && !r.cq_mem.dead
+    });
+    if !drained || report::has_violation() {
+        return;
+    }
+    for t in list {
+        if t.finished || !t.polled || !t.last_pending || t.wakers.fired() {
+            continue;
+        }
+        let unconsumed = kernel::with(|k| k.rings[0].published.iter().any(|p| p.by_op == t.id && p.during == During::Poll));
+        if unconsumed {
+            continue;
+        }
+        let recs = mt_recs(t.id);
+        let (items, complete, last_done) = crate::engine::script_of(&recs, &t.expect);
+        let ready = if t.is_iter {
+            items.len() > t.matched || (complete && last_done)
+        } else {
+            recs.last().is_some_and(|r| r.done)
+        };
+        if ready {
+            violation(
+                "wake.lost-completion",
+                format!(
+                    "{} (op#{}) is ready (its completion was processed by Ring::poll on another thread) but the waker of its most recent poll was not invoked",
+                    t.name, t.id
+                ),
+            );
+        }
+    }
 }
 
 fn draw_counter(entries: u32) -> u32 {
@@ -98,7 +153,11 @@ fn mt_ops(kinds: &'static [Kind], sq_sizes: &[u32], faults: bool) {
             list.push(MtTask {
                 id,
                 name: made.name,
-                task: made.task,
+                is_iter: kind.is_iter(),
+                quota: 1 + tape::choose(site::GEOM, 4) as usize,
+                matched: 0,
+                last_pending: false,
+                task: Some(made.task),
                 expect: made.expect,
                 wakers: TaskWakers::new(id),
                 polled: false,
@@ -111,7 +170,7 @@ fn mt_ops(kinds: &'static [Kind], sq_sizes: &[u32], faults: bool) {
     let total = next_id;
     let done = Arc::new(AtomicU32::new(0));
     let gave_up = Arc::new(AtomicBool::new(false));
-    let results: Arc<Mutex<Vec<(u32, &'static str, Option<Out>, ops::Expect)>>> = Arc::new(Mutex::new(Vec::new()));
+    let results: Arc<Mutex<Vec<(u32, &'static str, Option<Out>, ops::Expect, bool, bool)>>> = Arc::new(Mutex::new(Vec::new()));
 
     let mut bodies: Vec<Box<dyn FnOnce() + Send>> = Vec::new();
     for list in lists {
@@ -138,22 +197,64 @@ fn mt_ops(kinds: &'static [Kind], sq_sizes: &[u32], faults: bool) {
                     let mut cx = Context::from_waker(&wk);
                     let mut produced = Vec::new();
                     let old = kernel::set_cur(t.id, During::Poll);
-                    let r = t.task.poll(&mut cx, &mut produced);
+                    let r = t.task.as_mut().unwrap().poll(&mut cx, &mut produced);
                     kernel::set_cur(old.0, old.1);
                     t.polled = true;
                     for p in produced {
                         ops::drop_produced(p);
                     }
-                    if let Poll::Ready(o) = r {
-                        ev!("h t{} op#{} -> {o:?}", sched::tid(), t.id);
-                        t.finished = true;
-                        t.out = o;
-                        done.fetch_add(1, Ordering::AcqRel);
-                    } else {
-                        ev!("h t{} op#{} -> Pending", sched::tid(), t.id);
+                    match r {
+                        Poll::Ready(Some(o)) if t.is_iter => {
+                            ev!("h t{} op#{} -> item {o:?}", sched::tid(), t.id);
+                            t.last_pending = false;
+                            // Each item is the next entry of the kernel's script.
+                            let recs = mt_recs(t.id);
+                            let (items, _, _) = crate::engine::script_of(&recs, &t.expect);
+                            match items.get(t.matched) {
+                                Some(want) if *want == o => {}
+                                Some(want) => violation(
+                                    "res.wrong",
+                                    format!("{} (op#{}): item {} is {o:?}, kernel scripted {want:?}", t.name, t.id, t.matched),
+                                ),
+                                None => violation(
+                                    "res.made-up",
+                                    format!("{} (op#{}) yielded {o:?} although the kernel posted only {} completion(s) for it", t.name, t.id, items.len()),
+                                ),
+                            }
+                            t.matched += 1;
+                            t.polled = false; // a consumer polls a stream again right away
+                            if t.matched >= t.quota {
+                                ev!("h t{} drops stream op#{}", sched::tid(), t.id);
+                                let task = t.task.take();
+                                alloc::a10(|| drop(task));
+                                t.finished = true;
+                                done.fetch_add(1, Ordering::AcqRel);
+                            }
+                        }
+                        Poll::Ready(o) => {
+                            ev!("h t{} op#{} -> {o:?}", sched::tid(), t.id);
+                            if t.is_iter {
+                                let (_, complete, _) = crate::engine::script_of(&mt_recs(t.id), &t.expect);
+                                if !complete {
+                                    violation(
+                                        "res.early",
+                                        format!("{} (op#{}) ended its stream although the kernel posted no final completion", t.name, t.id),
+                                    );
+                                }
+                            }
+                            t.last_pending = false;
+                            t.finished = true;
+                            t.out = o;
+                            done.fetch_add(1, Ordering::AcqRel);
+                        }
+                        Poll::Pending => {
+                            ev!("h t{} op#{} -> Pending", sched::tid(), t.id);
+                            t.last_pending = true;
+                        }
                     }
                     sched::step_boundary();
                 }
+                check_lost_wakeups(list);
                 if pending == 0 {
                     break;
                 }
@@ -171,10 +272,11 @@ fn mt_ops(kinds: &'static [Kind], sq_sizes: &[u32], faults: bool) {
             }
             // Never hold a harness lock across a call into a10 (it may yield).
             let mut mine = Vec::new();
+            check_lost_wakeups(list);
             for t in list.drain(..) {
-                let MtTask { id, name, task, expect, out, .. } = t;
-                drop(task);
-                mine.push((id, name, out, expect));
+                let MtTask { id, name, task, expect, out, is_iter, finished, .. } = t;
+                alloc::a10(|| drop(task));
+                mine.push((id, name, out, expect, is_iter, finished));
             }
             results.lock().unwrap_or_else(|e| e.into_inner()).extend(mine);
         }));
@@ -210,14 +312,12 @@ fn mt_ops(kinds: &'static [Kind], sq_sizes: &[u32], faults: bool) {
 
     // ------------------------------------------------------------- oracle
     let res = std::mem::take(&mut *results.lock().unwrap_or_else(|e| e.into_inner()));
-    for (id, name, out, expect) in &res {
-        let recs: Vec<kernel::OpRecord> = kernel::with(|k| {
-            k.records
-                .iter()
-                .filter(|r| r.by_op == *id && r.during == During::Poll)
-                .cloned()
-                .collect()
-        });
+    for (id, name, out, expect, is_iter, finished) in &res {
+        let recs = mt_recs(*id);
+        if *is_iter && *finished {
+            // Items were compared as they were yielded.
+            continue;
+        }
         match out {
             None => {
                 if !report::has_violation() {
@@ -278,6 +378,8 @@ const LIFE_KINDS: &[Kind] = &[
     Kind::Metadata,
     Kind::Open,
     Kind::Waitid,
+    Kind::MultishotAccept,
+    Kind::MultishotAccept,
 ];
 
 pub fn mt_sq() {
@@ -290,11 +392,8 @@ pub fn mt_life() {
 
 // --------------------------------------------------------------- mt-wake
 
-/// Global logical clock of the scenario (events, not time).
-static SEQ: AtomicU64 = AtomicU64::new(0);
-
 fn stamp() -> u64 {
-    SEQ.fetch_add(1, Ordering::AcqRel)
+    kernel::stamp()
 }
 
 #[derive(Clone, Debug)]
@@ -313,14 +412,15 @@ struct WakeRec {
 }
 
 pub fn mt_wake() {
-    SEQ.store(0, Ordering::Release);
     let kind = tape::choose(site::GEOM, 4); // 0,1: default, 2: sqpoll, 3: single issuer
     let sq = tape::pick(site::GEOM, &[2u32, 1, 4, 8]);
     let defer = kind == 3 && tape::chance(site::GEOM, 1, 2);
     let mut kcfg = KCfg {
         p_yield_act: tape::pick(site::CFG, &[0u32, 100, 300]),
         sqpoll_sleepy: tape::chance(site::CFG, 1, 2),
-        p_complete_in_wait: 0,
+        // In some runs I/O completes as well, so polls find completions
+        // without blocking and wake() can land while they are handed out.
+        p_complete_in_wait: tape::pick(site::CFG, &[0u32, 0, 50]),
         sq_start: draw_counter(sq),
         cq_start: draw_counter(2 * sq),
         ..KCfg::default()
@@ -452,9 +552,77 @@ pub fn mt_wake() {
             alloc::a10(|| drop(sqh));
         }));
     }
+    // A thread that starts operations while all this happens: the submission
+    // queue may be full of unsubmitted entries when wake() wants to queue its
+    // message, and their completions make polls return without blocking.
+    let late: Arc<Mutex<Vec<SendPtr<Box<dyn DynTask>>>>> = Arc::new(Mutex::new(Vec::new()));
+    if kind != 3 && tape::chance(site::GEOM, 2, 3) {
+        let n = 1 + tape::choose(site::GEOM, 2 * sq);
+        let mut made: Vec<SendPtr<Box<dyn DynTask>>> = Vec::new();
+        for i in 0..n {
+            let k = if tape::choose(site::OPKIND, 2) == 0 { Kind::Recv } else { Kind::Truncate };
+            made.push(SendPtr(ops::make(&mut w, k, Some(fd), None, 100 + i as u8).task));
+        }
+        let late = late.clone();
+        let made = SendPtr(made);
+        bodies.push(Box::new(move || {
+            let made = made;
+            let mut kept = Vec::new();
+            for mut t in made.0 {
+                sched::step_boundary();
+                let wk = std::task::Waker::noop();
+                let mut cx = Context::from_waker(wk);
+                let mut produced = Vec::new();
+                let old = kernel::set_cur(2000, During::Poll);
+                let _ = t.0.poll(&mut cx, &mut produced);
+                kernel::set_cur(old.0, old.1);
+                kept.push(t);
+            }
+            late.lock().unwrap_or_else(|e| e.into_inner()).extend(kept);
+        }));
+    }
     sched::run_threads(bodies, tape::pick(site::CFG, &[300u32, 100, 600]), 200_000);
 
     // ------------------------------------------------------------- oracle
+    // "A wake makes the poll that is currently blocked, or else the next poll to
+    // start, return promptly." For every wake W the poll it is owed to (P*) is the
+    // first poll, in order, that
+    //  (a) is in its kernel wait when W starts, or enters it later: P* (it must
+    //      not sleep until its timeout / forever), or
+    //  (b) starts after W started and never waits in the kernel: satisfied;
+    // a poll that was already running when W started and never waits is skipped
+    // (it cannot have been blocked), and if a poll whose kernel wait had ended
+    // is still running when W starts, W may legitimately be consumed by it: no
+    // obligation is derived from such a W.
+    let waits: Vec<(usize, u64, u64, bool)> = kernel::with(|k| k.wait_log.clone());
+    let polls_now = polls.lock().unwrap_or_else(|e| e.into_inner()).clone();
+    let wakes_now = wakes.lock().unwrap_or_else(|e| e.into_inner()).clone();
+    'wakes: for wk in &wakes_now {
+        for (j, p) in polls_now.iter().enumerate() {
+            if p.end < wk.start {
+                continue; // over before the wake started
+            }
+            let wait = waits.iter().find(|(_, ws, we, _)| *ws > p.start && *we < p.end);
+            match wait {
+                Some((_, ws, we, expired)) if *we > wk.start => {
+                    if *expired {
+                        violation(
+                            if *ws < wk.start { "wakeup.poll-timed-out" } else { "wakeup.poll-stuck" },
+                            format!(
+                                "Ring::poll #{j} ({:?}) slept until its timeout (or forever) in the kernel (events {ws}..{we}) although a wake() call ran at events {}..{} (ring kind {kind}, sq {sq})",
+                                p.timeout, wk.start, wk.end
+                            ),
+                        );
+                        break 'wakes;
+                    }
+                    continue 'wakes;
+                }
+                Some(_) => continue 'wakes, // its wait was over, it may consume W
+                None if p.start > wk.start => continue 'wakes, // prompt, never blocked
+                None => {}                  // running, never blocks: the next poll owes it
+            }
+        }
+    }
     let polls = polls.lock().unwrap_or_else(|e| e.into_inner()).clone();
     let wakes = wakes.lock().unwrap_or_else(|e| e.into_inner()).clone();
     for (j, p) in polls.iter().enumerate() {
@@ -483,6 +651,8 @@ pub fn mt_wake() {
         }
     }
     drop(fillers);
+    let late = std::mem::take(&mut *late.lock().unwrap_or_else(|e| e.into_inner()));
+    drop(late);
     let World { sq: s2, fds, .. } = w;
     alloc::a10(|| {
         drop(fds);
@@ -629,5 +799,178 @@ pub fn mt_pool() {
     });
     for v in alloc::take_violations() {
         violation(v.class, v.detail);
+    }
+}
+
+// ----------------------------------------------------------- mt-teardown
+
+/// `mt-teardown` (C12, C01, C06): operations are started on 1-3 threads and
+/// then everything is dropped from different threads, the Ring at a drawn
+/// point, with preemption at every yield point (`Ring::drop`'s final poll
+/// against another thread's `State::drop`).
+pub fn mt_teardown() {
+    let sq = tape::pick(site::GEOM, &[4u32, 2, 8, 1]);
+    let cq = sq * tape::pick(site::GEOM, &[1u32, 2, 4]);
+    let mut kcfg = crate::engine::draw_kcfg(true);
+    kcfg.sq_start = draw_counter(sq);
+    kcfg.cq_start = draw_counter(cq);
+    kcfg.p_yield_act = tape::pick(site::CFG, &[100u32, 300, 30]);
+    kcfg.enter_faults = false;
+    kernel::with(|k| k.cfg = kcfg);
+    let ring = alloc::a10(|| {
+        a10::Ring::config()
+            .with_submission_queue_size(sq)
+            .with_completion_queue_size(cq)
+            .build()
+    });
+    let Ok(ring) = ring else {
+        report::harness_error("ring build failed".to_string());
+        return;
+    };
+    let sqh = alloc::a10(|| ring.sq());
+    let mut w = World {
+        ring: None,
+        sq: sqh,
+        fds: Vec::new(),
+        pools: Vec::new(),
+        direct_enabled: false,
+        other: None,
+        signals: Vec::new(),
+    };
+    let fd = w.new_fd();
+    if tape::chance(site::GEOM, 1, 2) {
+        if let Ok(p) = alloc::a10(|| a10::io::ReadBufPool::new(w.sq.clone(), 2, 16)) {
+            w.pools.push(p);
+        }
+    }
+    trace(&[tag::CFG, sq, cq, w.pools.len() as u32]);
+    // Start operations (single-threaded phase), some get completions.
+    const KINDS: &[Kind] = &[
+        Kind::ReadVec,
+        Kind::WriteVec,
+        Kind::SendZc,
+        Kind::Recv,
+        Kind::Accept,
+        Kind::Open,
+        Kind::MultishotAccept,
+        Kind::ReadPool,
+        Kind::MultishotRead,
+        Kind::WriteTracked,
+        Kind::Truncate,
+    ];
+    let n = 1 + tape::choose(site::GEOM, 8);
+    let mut tasks: Vec<SendPtr<Box<dyn DynTask>>> = Vec::new();
+    let wk = std::task::Waker::noop();
+    ops::tracked_reset();
+    for i in 0..n {
+        let kinds: Vec<Kind> = KINDS.iter().copied().filter(|k| !k.needs_pool() || !w.pools.is_empty()).collect();
+        let kind = kinds[tape::choose(site::OPKIND, kinds.len() as u32) as usize];
+        let f = if kind.needs_fd() { Some(fd) } else { None };
+        let pool = if kind.needs_pool() { Some(0) } else { None };
+        let made = ops::make(&mut w, kind, f, pool, i as u8 + 1);
+        let mut t = made.task;
+        if tape::chance(site::STEP, 4, 5) {
+            let mut cx = Context::from_waker(wk);
+            let mut produced = Vec::new();
+            let old = kernel::set_cur(i, During::Poll);
+            let _ = t.poll(&mut cx, &mut produced);
+            kernel::set_cur(old.0, old.1);
+            for p in produced {
+                ops::drop_produced(p);
+            }
+        }
+        tasks.push(SendPtr(t));
+    }
+    // Distribute the handles over the threads.
+    let nthreads = 2 + tape::choose(site::GEOM, 2) as usize;
+    let mut shares: Vec<Vec<SendPtr<Box<dyn DynTask>>>> = (0..nthreads).map(|_| Vec::new()).collect();
+    for t in tasks {
+        let k = tape::choose(site::TARGET, nthreads as u32) as usize;
+        shares[k].push(t);
+    }
+    let ring_thread = tape::choose(site::TARGET, nthreads as u32) as usize;
+    let polls_before_drop = tape::choose(site::STEP, 3);
+    let mut ring_opt = Some(SendPtr(ring));
+    let all_dropped = Arc::new(AtomicU32::new(0));
+    let mut bodies: Vec<Box<dyn FnOnce() + Send>> = Vec::new();
+    for (ti, share) in shares.into_iter().enumerate() {
+        let ring = if ti == ring_thread { ring_opt.take() } else { None };
+        let ring_pos = tape::choose(site::DROP, share.len() as u32 + 1) as usize;
+        let all_dropped = all_dropped.clone();
+        let share = SendPtr(share);
+        bodies.push(Box::new(move || {
+            let share = share;
+            let mut ring = ring;
+            let mut drop_ring = |ring: &mut Option<SendPtr<a10::Ring>>| {
+                if let Some(r) = ring.take() {
+                    let mut r = r;
+                    for _ in 0..polls_before_drop {
+                        let _ = alloc::a10(|| r.0.poll(Some(Duration::ZERO)));
+                        sched::step_boundary();
+                    }
+                    ev!("h t{}: drop ring", sched::tid());
+                    kernel::with(|k| k.in_ring_drop = true);
+                    alloc::a10(|| drop(r));
+                    kernel::with(|k| k.in_ring_drop = false);
+                }
+            };
+            for (i, t) in share.0.into_iter().enumerate() {
+                if i == ring_pos {
+                    drop_ring(&mut ring);
+                }
+                sched::step_boundary();
+                ev!("h t{}: drop an operation", sched::tid());
+                let old = kernel::set_cur(3000 + sched::tid() as u32, During::Drop);
+                drop(t);
+                kernel::set_cur(old.0, old.1);
+            }
+            drop_ring(&mut ring);
+            all_dropped.fetch_add(1, Ordering::AcqRel);
+        }));
+    }
+    sched::run_threads(bodies, tape::pick(site::CFG, &[300u32, 100, 600]), 200_000);
+    // The remaining handles go after the ring.
+    let World { sq: s2, fds, pools, .. } = w;
+    alloc::a10(|| {
+        drop(pools);
+        drop(fds);
+        drop(s2);
+    });
+    for v in alloc::take_violations() {
+        violation(v.class, v.detail);
+    }
+    // Ledger: mappings, ring descriptor, registrations (descriptors of AsyncFds
+    // dropped after the ring are the recorded known finding).
+    kernel::with(|k| k.refresh_ring_fds());
+    let (maps, closed, pbufs) = kernel::with(|k| {
+        let r = &k.rings[0];
+        (
+            [
+                (r.sq_mem.maps, r.sq_mem.unmaps),
+                (r.cq_mem.maps, r.cq_mem.unmaps),
+                (r.sqes_mem.maps, r.sqes_mem.unmaps),
+            ],
+            r.fd_closed,
+            r.pbufs.len(),
+        )
+    });
+    if !report::has_violation() {
+        for (i, (m, u)) in maps.iter().enumerate() {
+            if m != u {
+                violation(
+                    "teardown.mmap-imbalance",
+                    format!("ring mapping {i}: mapped {m} times, unmapped {u} times after every handle was dropped"),
+                );
+            }
+        }
+        if !closed {
+            violation("teardown.fd-left", "the ring's descriptor is still open after every handle was dropped".to_string());
+        }
+        if pbufs != 0 {
+            violation("teardown.registration-left", format!("{pbufs} buffer ring(s) still registered"));
+        }
+    }
+    if !report::has_violation() {
+        crate::engine::check_leaks();
     }
 }
